@@ -642,3 +642,89 @@ def ob_event_unset_fields(stop: bool, how: int, which: int) -> bool:
             else:
                 ev.n = 9
         return event_ok(ev)
+
+
+# ------------------------------------------------------------------------------------------------ a class re-defined under its name
+_REV1 = """
+from workflows.events import Event, StopEvent
+class Progress(Event):
+    step: str
+class Done(StopEvent):
+    score: int
+class UserError(Exception):
+    pass
+"""
+_REV2 = """
+from workflows.events import Event, StopEvent
+class Progress(Event):
+    step: str
+    pct: int = 0
+class Done(StopEvent):
+    score: int
+    note: str = ""
+class UserError(Exception):
+    pass
+"""
+_RELOAD_MOD = "vlib_c18_reloaded"
+
+
+@obligation(quick=90, thorough=200,
+            what="the module that defines an event / stop-event / exception class is loaded AGAIN under the same qualified name (module reload, "
+                 "notebook cell re-run, hot reload) after an instance of the first definition may already have been read in this process: "
+                 "an instance of the CURRENT class comes back as the current class (type identity, typed fields) on every route / carrier — "
+                 "a read must not pin the class object it resolved",
+            bounds={"kinds": "event / stop event / exception", "earlier read of the first definition": "yes / no", "routes": "7 event routes, 6 exception carriers",
+                    "reloads": "1 or 2 (second reload back to the first source)"})
+def ob_class_redefined(kind: int, warm: bool, carrier: int, twice: bool) -> bool:
+    """
+    pre: 0 <= kind <= 2 and 0 <= carrier <= 5
+    pre: kind == 2 or carrier == 0
+    post: _
+    """
+    kind, carrier = cint(kind, 0, 2), cint(carrier, 0, 5)
+    warm = True if warm else False
+    twice = True if twice else False
+    with untraced():
+        import sys
+        import types
+
+        def load(src: str) -> Any:
+            mod = types.ModuleType(_RELOAD_MOD)
+            sys.modules[_RELOAD_MOD] = mod
+            exec(compile(src, "<" + _RELOAD_MOD + ">", "exec"), mod.__dict__)  # noqa: S102
+            return mod
+
+        def trip(mod: Any, rev2: bool) -> bool:
+            if kind == 2:
+                exc = mod.UserError("boom")
+                with warnings.catch_warnings():
+                    warnings.simplefilter("ignore")
+                    back = _exception_back(exc, carrier)
+                return type(back) is type(exc) and str(back) == str(exc)
+            if kind == 0:
+                ev = mod.Progress(step="s", pct=7) if rev2 else mod.Progress(step="s")
+            else:
+                ev = mod.Done(score=3, note="n") if rev2 else mod.Done(score=3)
+            for _name, back in event_routes(ev):
+                if isinstance(back, Exception) or type(back) is not type(ev) or not same_event(ev, back):
+                    return False
+                if rev2 and (back.pct != 7 if kind == 0 else back.note != "n"):
+                    return False
+            return True
+
+        try:
+            m1 = load(_REV1)
+            if warm and not trip(m1, False):
+                return False
+            m2 = load(_REV2)
+            if not trip(m2, True):
+                return False
+            if twice:
+                m3 = load(_REV1)
+                if not trip(m3, False):
+                    return False
+            return True
+        except Exception:
+            return False
+        finally:
+            sys.modules.pop(_RELOAD_MOD, None)
